@@ -9,7 +9,7 @@ rep = {}
 rt = os.path.join(root, 'rt')
 for d, _, files in os.walk(rt):
     for f in files:
-        if f.endswith('.go') and not f.endswith('_test.go'):
+        if (f.endswith(".go") and not f.endswith("_test.go")) or f.endswith(".s"):
             rel = os.path.relpath(os.path.join(d, f), rt)
             rep[os.path.join(repo, 'verifrt', rel)] = os.path.join(d, f)
 if len(sys.argv) > 3:
